@@ -154,7 +154,7 @@ theorem callDecode_units (G : GenLayer) (cfg : Config) (st : State) (i : Input) 
     | none => simp [callDecode_eq, hd]
     | raised => simp [callDecode_eq, hd]
     | ok m =>
-      cases hc : claimStep cfg st i m (leNat payload) iso with
+      cases hc : claimStep cfg st i m (leNat payload % 18446744073709551616) iso with
       | none => simp [callDecode_eq, hd, claimStep_units, hc]
       | some r =>
         obtain ⟨st1, iso1, stop⟩ := r
